@@ -19,7 +19,7 @@ K_CHECKSUM = {"unit": "checksum", "inject": "elvis-core/src/protocols/utility.rs
 PROPS = {
     "C18": {
         "units": ["checksum"],
-        "kani": [K_CHECKSUM, K_IPV4HDR],
+        "kani": [K_CHECKSUM, K_IPV4HDR, K_TCPHDR],
         "level": "proof",
         "technique": "Verus contracts on the extracted compute_checksum variants of Checksum (unbounded payload loop) + RFC 1071 algebra lemmas; Kani complete harnesses on the real crate built with --features compute_checksum",
         "level_text": "The accumulator functions (add_u16/add_u8/add_u32/accumulate_remainder/as_u16, compute_checksum variants) are verified against one's-complement addition with end-around carry for every payload length (loop invariant over an arbitrary byte iterator); lemmas: commutative monoid, the emitted field always verifies, a changed sum is always rejected. On the compiled crate with the feature on, CBMC proves for all field values that every emitted IPv4 header verifies under RFC 1071 against an independent 32-bit reference, that conforming headers are accepted and non-verifying ones rejected.",
